@@ -945,7 +945,7 @@ PARTS = {
                                     "file or in a (transitively) included one; the override array header stands exactly where the default one would be included")),
         (G, "gosym_part", dict(name="c08_matlab_package", entry="internal/zzverif.C08MatlabPackage", args_quick=(0,), args_thorough=(1,),
                                extra_quick=("-max-steps", "40000000"), extra_thorough=("-max-steps", "40000000"),
-                               required_sites=("generation-does-not-panic", "generation-succeeds", "file-defines-what-it-is-named-after", "qualified-reference-resolves",
+                               required_sites=("generation-does-not-panic", "generation-succeeds", "file-defines-what-it-is-named-after", "qualified-reference-resolves", "qualified-reference-of-a-shipped-file-resolves",
                                                "one-package-per-namespace"),
                                assumptions=["matlab has no documented options; internalGenerateMocks / internalSymlinkStaticFiles stay off",
                                             "model family as c08_cpp_package (quick: no / all definition kinds; thorough: all 16 subsets)",
